@@ -26,7 +26,7 @@ def extra(res, facts, entries, protos):
 def run(tier):
     return _proto.run_rules(
         "C05", LEVEL, RULES,
-        {"C05.R1": 4, "C05.R2": 16, "C05.R3": 4, "C05.R5": 21, "C05.R6": 3, "C05.R7": 2},
+        {"C05.R1": 2, "C05.R2": 16, "C05.R3": 4, "C05.R5": 21, "C05.R6": 3, "C05.R7": 2},
         "must-pass-through on the CFG of parse_raw_token (footer gate), provenance terms of the footer component in all 16 pre-authentication encodings "
         "(caller's expected footer on consumer sides, the builder's own footer on producer sides), identity of the Footer carrier and its base64 text, footer plumbing through the 32 wrappers and setters",
         ["MAC / signature strength: a different footer under the authenticator yields a different tag", "ring verify_slices_are_equal compares length and content", "base64 URL_SAFE_NO_PAD encoding is injective"],
